@@ -363,18 +363,37 @@ Section Lists2.
     match n with
     | O => false
     | S n' =>
-      if read_item_runs_off types after nm then true
-      else
+      match after with
+      | [] => true
+      | _ :: _ =>
         let '(item, taken, nm', st') := read_item types rec after ln nm st in
         let item_leader := match item with PItem _ _ _ _ _ l => l | _ => [] end in
         let ok := match leader with None => true | Some l => same_marker_type l item_leader end in
+        (* an item of another list type is not taken: the list was ended by that line *)
         if negb ok then false
+        else if read_item_runs_off types after nm then true
         else match nm' with
              | None => false
              | Some _ => list_runs_off n' (skipn taken after) (ln + nlines taken)
                                        (match leader with None => Some item_leader | Some _ => leader end) nm' st'
              end
+      end
     end.
+
+  (* the leader of the item ListItem.read returns comes from the marker alone *)
+  Definition item_leader_of (p : pre) : list Z := match p return list Z with PItem _ _ _ _ _ l => l | _ => @nil Z end.
+  Lemma read_item_leader x X Y ln nm st :
+    item_leader_of (fst (fst (fst (read_item types rec (x :: X) ln nm st)))) =
+    item_leader_of (fst (fst (fst (read_item types rec (x :: Y) ln nm st)))).
+  Proof.
+    unfold read_item. destruct (match nm with Some m => Some m | None => parse_marker x end) as [[[[ind pp] ld] ct]|]; [|reflexivity].
+    destruct (is_blank ct).
+    - destruct (count_blank X), (count_blank Y); cbn [fst item_leader_of];
+        repeat match goal with |- context [item_loop ?a ?b ?c ?d ?e ?f ?g] => destruct (item_loop a b c d e f g) as [[? ?] ?] end;
+        repeat match goal with |- context [rec ?a ?b ?c] => destruct (rec a b c) as [[? ?] ?] end; reflexivity.
+    - repeat match goal with |- context [item_loop ?a ?b ?c ?d ?e ?f ?g] => destruct (item_loop a b c d e f g) as [[? ?] ?] end;
+        repeat match goal with |- context [rec ?a ?b ?c] => destruct (rec a b c) as [[? ?] ?] end; reflexivity.
+  Qed.
 
   Lemma read_list_stable : forall n after ln leader nm items consumed st,
     list_runs_off n after ln leader nm st = false ->
@@ -382,11 +401,16 @@ Section Lists2.
   Proof.
     induction n as [|n IH]; intros after ln leader nm items consumed st H; [reflexivity|].
     cbn [list_runs_off] in H. destruct after as [|x X]; [discriminate|].
-    destruct (read_item_runs_off types (x :: X) nm) eqn:Er; [discriminate|].
     cbn [read_list]. change ((x :: X) ++ NL :: B) with (x :: X ++ NL :: B).
-    rewrite (read_item_stable types B rec x X ln nm st Er).
+    pose proof (read_item_leader x (X ++ NL :: B) X ln nm st) as L.
+    destruct (read_item types rec (x :: X ++ NL :: B) ln nm st) as [[[item2 taken2] nm2] st2] eqn:Ei2.
     destruct (read_item types rec (x :: X) ln nm st) as [[[item taken] nm'] st'] eqn:Ei.
+    cbn [fst] in L. cbv beta iota zeta.
+    unfold item_leader_of in L.
+    rewrite L.
     destruct (negb _); [reflexivity|].
+    destruct (read_item_runs_off types (x :: X) nm) eqn:Er; [discriminate|].
+    rewrite (read_item_stable types B rec x X ln nm st Er), Ei in Ei2. injection Ei2 as <- <- <- <-.
     destruct nm' as [mk|]; [|reflexivity].
     pose proof (read_item_bound x X ln nm st _ _ _ _ Ei) as Hb.
     change (x :: X ++ NL :: B) with ((x :: X) ++ NL :: B). rewrite skipn_app.
